@@ -94,6 +94,8 @@ let parse_op t : op = match next t with
   | "rawentry" -> let s = num t in let var = num t in let k = num t in
     let n = inum t in ORawEntry (s, var, k, rep n (fun () -> parse_step t))
   | "rawget" -> let s = num t in let var = num t in ORawGet (s, var, num t)
+  | "setalg" -> let k = num t in let a = num t in OSetAlg (k, a, num t)
+  | "setpred" -> let k = num t in let a = num t in OSetPred (k, a, num t)
   | s -> raise (Parse ("op " ^ s))
 
 (* ---- printing model results in the harness's canonical form *)
